@@ -102,7 +102,39 @@ def plant(rng, gen):
         nodes = treegen.all_nodes(t)
         n = rng.choice(nodes)
         kind = rng.choice(["unknown", "misplaced", "invalid_content", "bad_attr", "allowed_unknown", "repeat", "error_parent_plus_offender",
-                           "junk_in_metadata", "mutate", "typed_content", "listed_only"])
+                           "junk_in_metadata", "mutate", "typed_content", "listed_only", "nontext_attr", "described"])
+        if kind == "nontext_attr":
+            # attribute values a program put there and that are not text (an id that is a UUID object, a date, a Decimal, bytes), on a
+            # node that strict pruning has to remove and on its neighbours: pruning comes back with them like with any other value
+            import datetime
+            import decimal
+            import uuid as _uuid
+            values = [_uuid.UUID(int=rng.getrandbits(128)), datetime.date(2020, 2, 29), decimal.Decimal("1.50"), ("a", "b"), 7, 2.5, None, True]
+            n.add_attribute(rng.choice(["id", "verifAttr", "scope"]), rng.choice(values))
+            n.add_attribute("verifAttr", rng.choice(values))
+            if n.parent is not None and rng.random() < 0.5:
+                n.parent.add_attribute("id", rng.choice(values))
+            log.append(kind)
+            continue
+        if kind == "described":
+            # an offender that carries an id, and an additionalMetadata section of the root that describes exactly that id: the section
+            # itself offends nobody and stays
+            c = treegen.foreign_node(rng) if rng.random() < 0.6 else Node(rng.choice(list(gen.known)))
+            c.add_attribute("id", "raster.1")
+            inner = Node("entityName", content="below the offender")
+            inner.add_attribute("id", "raster.1.name")
+            c.add_child(inner)
+            n.add_child(c, rng.randint(0, len(n.children)))
+            if t.name == "eml":
+                am = Node("additionalMetadata")
+                for d in rng.choice([["raster.1"], ["raster.1", "raster.1.name"], ["raster.1.name"], ["raster.1", "somethingElse"]]):
+                    am.add_child(Node("describes", content=d))
+                md = Node("metadata")
+                md.add_child(Node("verifAnything", content="kept"))
+                am.add_child(md)
+                t.add_child(am)
+            log.append(kind)
+            continue
         if kind == "unknown":
             c = treegen.foreign_node(rng)
             if rng.random() < 0.3:
